@@ -72,6 +72,7 @@ class World {
   std::function<bool()> on_idle;
   std::function<void()> on_decision;
   std::function<void(int, long)> on_point;
+  std::function<void(int, int)> on_proc_switch;
   std::function<void(int, const std::string &)> on_uncaught;
   bool finished = false;
   long ticks = 0;          // simulated time
@@ -220,6 +221,7 @@ static void switch_to(Task *next) {
   prev->eh = *g;
   W->current = next;
   W->res.switches++;
+  if (W->on_proc_switch && prev->proc != next->proc && next != &W->mainctx && prev != &W->mainctx) W->on_proc_switch(prev->proc, next->proc);
 #if defined(SIM_SAN)
   bool dying = (prev->state == T_DONE || prev->state == T_DEAD) && prev != &W->mainctx;
   __sanitizer_start_switch_fiber(dying ? nullptr : &prev->fake_stack, next->stack, next->stack_size);
@@ -493,6 +495,7 @@ void set_on_proc_death(const std::function<void(int)> &f) { W->on_proc_death = f
 void set_on_idle(const std::function<bool()> &f) { W->on_idle = f; }
 void set_on_decision(const std::function<void()> &f) { W->on_decision = f; }
 void set_on_point(const std::function<void(int, long)> &f) { W->on_point = f; }
+void set_on_proc_switch(const std::function<void(int, int)> &f) { W->on_proc_switch = f; }
 void set_on_uncaught(const std::function<void(int, const std::string &)> &f) { W->on_uncaught = f; }
 
 static void finish_task(Task *t, TState st) {
